@@ -86,7 +86,7 @@ func runC19(c *runCtx) {
 	defer os.RemoveAll(dir)
 	g := newSQLGen(c.rng.Fork())
 	g.Plain = true
-	pool := []string{"SELECT a FROM t", "select a,b from t where a=1", "SELECT a FROM t;\nSELECT b FROM u;", "SELECT FROM", "SELECT 'unterminated", "", ";; SELECT 1", "SELECT 1;;",
+	pool := []string{"-- only a comment\n", "/* only a block comment */", "   \n\n\t\n", "-- c1\n-- c2\n\n", "-- c\nSELECT 1", "SELECT a FROM t", "select a,b from t where a=1", "SELECT a FROM t;\nSELECT b FROM u;", "SELECT FROM", "SELECT 'unterminated", "", ";; SELECT 1", "SELECT 1;;",
 		"insert into t (a) values (1)", "SELECT a FROM t WHERE", "SELECT  a\n\tFROM   t  ", "UPDATE t SET a = 1 WHERE b = 2", "DELETE FROM t WHERE x IN (SELECT y FROM u)", "SELECT a FROM t -- trailing comment",
 		"WITH c AS (SELECT 1) SELECT * FROM c", "CREATE TABLE t (a INT, b VARCHAR(10))", "garbage here"}
 	for i := 0; i < 12; i++ {
@@ -225,6 +225,38 @@ func runC19(c *runCtx) {
 			res.fail("validate-exit-stdin", fmt.Sprintf("validate - (stdin) exits %d, library verdict %d", o.exit, want), map[string]any{"stdin": ct}, truncate(o.stderr, 200))
 		}
 		res.count("stdin|"+ct, true)
+	}
+	// A'. parse and analyze: the exit status is the library's verdict under every output format and input route
+	for r := 0; r < c.n(40, 600); r++ {
+		ct := pool[c.rng.Intn(len(pool))]
+		if strings.TrimSpace(ct) == "" {
+			continue
+		}
+		accepted := libraryAccepts(ct, false)
+		for _, sub := range [][]string{{"parse"}, {"parse", "--ast"}, {"parse", "--tokens"}, {"analyze"}, {"analyze", "--security"}} {
+			for _, ff := range [][]string{nil, {"-f", "json"}, {"-f", "yaml"}, {"-f", "table"}, {"--format", "JSON"}} {
+				if c.quick && (r+len(sub)+len(ff))%3 != 0 {
+					continue
+				}
+				f := write("pa/a.sql", ct)
+				viaFile := runCLI(bin, dir, "", append(append(append([]string{}, sub...), ff...), "pa/a.sql")...)
+				viaStdin := runCLI(bin, dir, ct, append(append(append([]string{}, sub...), ff...), "-")...)
+				res.count(fmt.Sprintf("%v|%v|%s", sub, ff, ct), true)
+				wit := map[string]any{"command": append(append([]string{}, sub...), ff...), "file": ct}
+				if after, _ := os.ReadFile(f); string(after) != ct {
+					res.fail("read-only-command-modifies-file", sub[0]+" rewrote its input file", wit, nil)
+				}
+				if sub[0] == "parse" && len(sub) == 2 && sub[1] == "--tokens" {
+					continue // token output needs only a lexically valid input
+				}
+				if accepted != (viaFile.exit == 0) {
+					res.fail(sub[0]+"-exit", fmt.Sprintf("%s exits %d on the file but the library accepts=%v", sub[0], viaFile.exit, accepted), wit, truncate(viaFile.stderr, 200))
+				}
+				if (viaFile.exit == 0) != (viaStdin.exit == 0) {
+					res.fail(sub[0]+"-exit-file-vs-stdin", fmt.Sprintf("%s exits %d on the file and %d on the same text from stdin", sub[0], viaFile.exit, viaStdin.exit), wit, nil)
+				}
+			}
+		}
 	}
 	// B. format consistency
 	flagSets := [][]string{{}, {"--compact"}, {"--no-uppercase"}, {"--indent", "4"}, {"--compact", "--no-uppercase"}}
